@@ -378,8 +378,11 @@ class Interp(object):
             base = mod.split('.')[-1]
             for a in st.names:
                 local = a.asname or a.name
-                if mod == 'ast':
-                    env[local] = AstClass(a.name) if a.name[0].isupper() else Unknown('ast.' + a.name)
+                if mod == 'ast' and a.name in ('walk', 'iter_child_nodes'):
+                    env[local] = Native('ast.' + a.name, _sym_walk if a.name == 'walk' else _sym_children)
+                elif mod == 'ast':
+                    env[local] = AstClass(a.name) if (a.name[0].isupper() or isinstance(getattr(ast, a.name, None), type)) \
+                        else Unknown('ast.' + a.name)
                 elif st.level >= 1 and base in SUPP_MODULES:
                     env[local] = ('lazy', SUPP_MODULES[base], a.name)
                 elif st.level >= 1 and not mod and a.name in SUPP_MODULES:
@@ -902,8 +905,13 @@ class Interp(object):
         classes = c if isinstance(c, tuple) else (c,)
         if isinstance(v, SymNode):
             if v.cls is None:
-                # arbitrary expression / statement: fork over "is one of these classes"
+                # arbitrary expression / statement: fork over "is one of these classes" - unless no class asked about belongs to
+                # the leaf's sort (an arbitrary expression is never an ast.arg)
                 names = tuple(sorted(getattr(k, 'name', repr(k)) for k in classes))
+                possible = [k for k in classes if not isinstance(k, AstClass) or k.name == 'AST' or k.name == v.sort
+                            or G.SORT_OF.get(k.name) == v.sort or k.name not in G.SORT_OF]
+                if not possible:
+                    return False
                 return self.decide(('isinstance', v.path, names))
             for k in classes:
                 if isinstance(k, AstClass):
@@ -1831,6 +1839,32 @@ class Frame(object):
         if self.local is self.genv:
             fr.closure = dict(self.closure)
         return fr
+
+
+def _sym_children(it, args, kwargs):
+    """ast.iter_child_nodes on a symbolic node: its child nodes in field order (an opaque leaf has none that are known)."""
+    n = args[0]
+    if not isinstance(n, SymNode):
+        raise Uninterpretable('ast.iter_child_nodes(%r)' % (n,))
+    out = []
+    for v in n.fields.values():
+        if isinstance(v, SymNode):
+            out.append(v)
+        elif isinstance(v, list):
+            out.extend(x for x in v if isinstance(x, SymNode))
+    return out
+
+
+def _sym_walk(it, args, kwargs):
+    """ast.walk on a symbolic node: breadth first, like the stdlib."""
+    if not isinstance(args[0], SymNode):
+        raise Uninterpretable('ast.walk(%r)' % (args[0],))
+    todo, out = [args[0]], []
+    while todo:
+        n = todo.pop(0)
+        out.append(n)
+        todo.extend(_sym_children(it, [n], {}))
+    return out
 
 
 def explore(interp, run, snapshot=None):
